@@ -23,6 +23,7 @@ import (
 	"sync"
 	"syscall"
 	"time"
+	"unsafe"
 
 	"github.com/absfs/absfs"
 
@@ -43,6 +44,7 @@ type fileData struct {
 	size  int64
 }
 
+//go:norace
 func (d *fileData) clone() fileData {
 	n := fileData{pages: make(map[int64][]byte, len(d.pages)), size: d.size}
 	for k, v := range d.pages {
@@ -110,8 +112,8 @@ type FS struct {
 	epoch   int
 	Calls   []*Call
 	faults  []*Fault
-	OnCall  func(c *Call) // invoked at entry after logging, outside the lock
-	OnRet   func(c *Call) // invoked at return
+	OnCall  func(c Call) any // invoked at entry after logging, outside the lock; its result is stored in Call.Ctx
+	OnRet   func(c Call)     // invoked at return
 	KeepLog bool
 	nseq    int
 	// CrashAfter: crash atomically after this many completed backend calls (0 = never)
@@ -120,6 +122,40 @@ type FS struct {
 	crashRng   *simrt.Rand
 	completed  int
 	Crashed    bool
+	wsync      byte // released by mutating calls, acquired by every call
+	rsync      byte // release-merged by read-only calls, acquired by mutating calls
+}
+
+// lock/unlock: the backend's own mutex must not teach the race detector any
+// happens-before edge; the edges a thread-safe backend provides are published
+// explicitly in begin/end (reader/writer discipline like an RWMutex).
+//
+//go:norace
+func (f *FS) lock() {
+	simrt.RaceOff()
+	f.mu.Lock()
+}
+
+//go:norace
+func (f *FS) unlock() {
+	f.mu.Unlock()
+	simrt.RaceOn()
+}
+
+// hlock/hunlock are used by harness-side accessors: they behave like a writer
+// of the backend (ordered after every earlier call, before every later one).
+//
+//go:norace
+func (f *FS) hlock() {
+	simrt.RaceAcquire(unsafe.Pointer(&f.wsync))
+	simrt.RaceAcquire(unsafe.Pointer(&f.rsync))
+	f.lock()
+}
+
+//go:norace
+func (f *FS) hunlock() {
+	f.unlock()
+	simrt.RaceRelease(unsafe.Pointer(&f.wsync))
 }
 
 // View is the handle of the filesystem given to one server instance. After a
@@ -131,12 +167,15 @@ type View struct {
 }
 
 // New creates an empty filesystem with a root directory.
+//
+//go:norace
 func New() *FS {
 	f := &FS{KeepLog: true}
 	f.root = f.newInode(KindDir, 0o755)
 	return f
 }
 
+//go:norace
 func (f *FS) newInode(kind int, perm os.FileMode) *Inode {
 	f.nextIno++
 	now := time.Now()
@@ -152,22 +191,29 @@ func (f *FS) newInode(kind int, perm os.FileMode) *Inode {
 }
 
 // View returns a view bound to the current epoch.
+//
+//go:norace
 func (f *FS) View() *View { return &View{fs: f, epoch: f.epoch, cwd: "/"} }
 
 // AddFault appends a fault rule.
+//
+//go:norace
 func (f *FS) AddFault(r Fault) {
-	f.mu.Lock()
+	f.hlock()
 	f.faults = append(f.faults, &r)
-	f.mu.Unlock()
+	f.hunlock()
 }
 
 // ClearFaults removes all fault rules.
+//
+//go:norace
 func (f *FS) ClearFaults() {
-	f.mu.Lock()
+	f.hlock()
 	f.faults = nil
-	f.mu.Unlock()
+	f.hunlock()
 }
 
+//go:norace
 func pe(op, p string, err error) error { return &os.PathError{Op: op, Path: p, Err: err} }
 
 var mutatingOps = map[string]bool{
@@ -178,6 +224,8 @@ var mutatingOps = map[string]bool{
 
 // begin logs the call, applies stall/fault rules and yields. It returns the
 // call record and an injected error (or nil).
+//
+//go:norace
 func (v *View) begin(c *Call) (*Call, *Fault) {
 	f := v.fs
 	simrt.Yield(simrt.ClassFS, "fs."+c.Op)
@@ -188,7 +236,7 @@ func (v *View) begin(c *Call) (*Call, *Fault) {
 	} else if mutatingOps[c.Op] {
 		c.Mutating = true
 	}
-	f.mu.Lock()
+	f.lock()
 	f.nseq++
 	c.Seq = f.nseq
 	c.Epoch = v.epoch
@@ -215,37 +263,54 @@ func (v *View) begin(c *Call) (*Call, *Fault) {
 		}
 	}
 	hook := f.OnCall
-	f.mu.Unlock()
+	f.unlock()
 	if hook != nil {
-		hook(c)
+		ctx := hook(*c)
+		f.lock()
+		c.Ctx = ctx
+		f.unlock()
 	}
 	if hit != nil && hit.Kind == "stall" {
 		simrt.Fault("fs.stall")
 		simrt.Sleep(hit.Stall)
 		hit = nil
 	}
+	// reader/writer edges of a thread-safe backend, taken right before the body runs
+	// (after any stall: calls that completed meanwhile are ordered before this one)
+	simrt.RaceAcquire(unsafe.Pointer(&f.wsync))
+	if c.Mutating {
+		simrt.RaceAcquire(unsafe.Pointer(&f.rsync))
+	}
 	return c, hit
 }
 
+//go:norace
 func (v *View) end(c *Call, err error) error {
 	f := v.fs
+	if c.Mutating {
+		simrt.RaceRelease(unsafe.Pointer(&f.wsync))
+	} else {
+		simrt.RaceReleaseMerge(unsafe.Pointer(&f.rsync))
+	}
+	stamp := simrt.Stamp()
+	f.lock()
 	c.Err = err
-	c.End = simrt.Stamp()
-	f.mu.Lock()
+	c.End = stamp
 	f.completed++
 	crash := f.CrashAfter > 0 && f.completed == f.CrashAfter && !f.Crashed
 	hook := f.OnRet
-	f.mu.Unlock()
+	f.unlock()
 	if crash {
 		f.Crash(f.CrashTorn, f.crashRng)
 	}
 	if hook != nil {
-		hook(c)
+		hook(*c)
 	}
 	simrt.Yield(simrt.ClassFS, "fs."+c.Op+".ret")
 	return err
 }
 
+//go:norace
 func faultErr(r *Fault) error {
 	switch r.Kind {
 	case "eio":
@@ -262,10 +327,13 @@ func faultErr(r *Fault) error {
 }
 
 // stale reports whether the view is from before the last crash.
+//
+//go:norace
 func (v *View) stale() bool { return v.epoch != v.fs.epoch }
 
 // ---------- path resolution (caller holds f.mu) ----------
 
+//go:norace
 func clean(p string) string {
 	if !strings.HasPrefix(p, "/") {
 		p = "/" + p
@@ -275,6 +343,8 @@ func clean(p string) string {
 
 // resolve walks p. follow: follow a symlink in the last component.
 // Returns parent dir, last name, inode (nil if absent).
+//
+//go:norace
 func (f *FS) resolve(p string, follow bool, depth int) (parent *Inode, name string, in *Inode, err error) {
 	if depth > 40 {
 		return nil, "", nil, syscall.ELOOP
@@ -318,6 +388,7 @@ func (f *FS) resolve(p string, follow bool, depth int) (parent *Inode, name stri
 	return nil, "", nil, syscall.ENOENT
 }
 
+//go:norace
 func (f *FS) lookup(p string, follow bool) (*Inode, error) {
 	_, _, in, err := f.resolve(p, follow, 0)
 	if err != nil {
@@ -347,13 +418,20 @@ type Stat struct {
 	Nlink    int
 }
 
+//go:norace
 func (i *info) Name() string       { return i.name }
+//go:norace
 func (i *info) Size() int64        { return i.size }
+//go:norace
 func (i *info) Mode() os.FileMode  { return i.mode }
+//go:norace
 func (i *info) ModTime() time.Time { return i.mtime }
+//go:norace
 func (i *info) IsDir() bool        { return i.mode.IsDir() }
+//go:norace
 func (i *info) Sys() any           { return i.in }
 
+//go:norace
 func (in *Inode) mode() os.FileMode {
 	m := in.Perm
 	switch in.Kind {
@@ -365,6 +443,7 @@ func (in *Inode) mode() os.FileMode {
 	return m
 }
 
+//go:norace
 func (in *Inode) size() int64 {
 	switch in.Kind {
 	case KindDir:
@@ -375,19 +454,25 @@ func (in *Inode) size() int64 {
 	return in.data.size
 }
 
+//go:norace
 func (in *Inode) info(name string) os.FileInfo {
 	return &info{name: name, size: in.size(), mode: in.mode(), mtime: in.Mtime, in: &Stat{Ino: in.Ino, Kind: in.Kind, UID: in.UID, GID: in.GID, Nlink: in.nlink}}
 }
 
 type dirEntry struct{ fi os.FileInfo }
 
+//go:norace
 func (d dirEntry) Name() string               { return d.fi.Name() }
+//go:norace
 func (d dirEntry) IsDir() bool                { return d.fi.IsDir() }
+//go:norace
 func (d dirEntry) Type() fs.FileMode          { return d.fi.Mode().Type() }
+//go:norace
 func (d dirEntry) Info() (fs.FileInfo, error) { return d.fi, nil }
 
 // ---------- data helpers (caller holds f.mu) ----------
 
+//go:norace
 func (d *fileData) readAt(b []byte, off int64) int {
 	if off >= d.size {
 		return 0
@@ -415,6 +500,7 @@ func (d *fileData) readAt(b []byte, off int64) int {
 	return int(n)
 }
 
+//go:norace
 func (d *fileData) writeAt(b []byte, off int64) {
 	n := int64(len(b))
 	for i := int64(0); i < n; {
@@ -437,6 +523,7 @@ func (d *fileData) writeAt(b []byte, off int64) {
 	}
 }
 
+//go:norace
 func (d *fileData) truncate(size int64) {
 	if size < d.size {
 		for pg, p := range d.pages {
@@ -457,12 +544,14 @@ func (d *fileData) truncate(size int64) {
 
 var errStale = syscall.EIO
 
+//go:norace
 func (v *View) OpenFile(name string, flag int, perm os.FileMode) (absfs.File, error) {
 	c, flt := v.begin(&Call{Op: "OpenFile", Path: name, Flag: flag, Perm: perm})
 	file, err := v.openFile(name, flag, perm, flt)
 	return file, v.end(c, err)
 }
 
+//go:norace
 func (v *View) openFile(name string, flag int, perm os.FileMode, flt *Fault) (absfs.File, error) {
 	f := v.fs
 	if flt != nil {
@@ -470,8 +559,8 @@ func (v *View) openFile(name string, flag int, perm os.FileMode, flt *Fault) (ab
 			return nil, pe("open", name, e)
 		}
 	}
-	f.mu.Lock()
-	defer f.mu.Unlock()
+	f.lock()
+	defer f.unlock()
 	if v.stale() {
 		return nil, pe("open", name, errStale)
 	}
@@ -503,19 +592,23 @@ func (v *View) openFile(name string, flag int, perm os.FileMode, flt *Fault) (ab
 	return &File{v: v, in: in, name: clean(name), flag: flag}, nil
 }
 
+//go:norace
 func (v *View) Open(name string) (absfs.File, error) { return v.OpenFile(name, os.O_RDONLY, 0) }
 
+//go:norace
 func (v *View) Create(name string) (absfs.File, error) {
 	c, flt := v.begin(&Call{Op: "Create", Path: name})
 	file, err := v.openFile(name, os.O_RDWR|os.O_CREATE|os.O_TRUNC, 0o666, flt)
 	return file, v.end(c, err)
 }
 
+//go:norace
 func (v *View) Mkdir(name string, perm os.FileMode) error {
 	c, flt := v.begin(&Call{Op: "Mkdir", Path: name, Perm: perm})
 	return v.end(c, v.mkdir(name, perm, flt))
 }
 
+//go:norace
 func (v *View) mkdir(name string, perm os.FileMode, flt *Fault) error {
 	f := v.fs
 	if flt != nil {
@@ -523,8 +616,8 @@ func (v *View) mkdir(name string, perm os.FileMode, flt *Fault) error {
 			return pe("mkdir", name, e)
 		}
 	}
-	f.mu.Lock()
-	defer f.mu.Unlock()
+	f.lock()
+	defer f.unlock()
 	if v.stale() {
 		return pe("mkdir", name, errStale)
 	}
@@ -543,6 +636,7 @@ func (v *View) mkdir(name string, perm os.FileMode, flt *Fault) error {
 	return nil
 }
 
+//go:norace
 func (v *View) MkdirAll(name string, perm os.FileMode) error {
 	c, _ := v.begin(&Call{Op: "MkdirAll", Path: name, Perm: perm})
 	p := clean(name)
@@ -562,11 +656,13 @@ func (v *View) MkdirAll(name string, perm os.FileMode) error {
 	return v.end(c, err)
 }
 
+//go:norace
 func (v *View) Remove(name string) error {
 	c, flt := v.begin(&Call{Op: "Remove", Path: name})
 	return v.end(c, v.remove(name, flt))
 }
 
+//go:norace
 func (v *View) remove(name string, flt *Fault) error {
 	f := v.fs
 	if flt != nil {
@@ -574,8 +670,8 @@ func (v *View) remove(name string, flt *Fault) error {
 			return pe("remove", name, e)
 		}
 	}
-	f.mu.Lock()
-	defer f.mu.Unlock()
+	f.lock()
+	defer f.unlock()
 	if v.stale() {
 		return pe("remove", name, errStale)
 	}
@@ -597,20 +693,22 @@ func (v *View) remove(name string, flt *Fault) error {
 	return nil
 }
 
+//go:norace
 func (v *View) RemoveAll(name string) error {
 	c, _ := v.begin(&Call{Op: "RemoveAll", Path: name})
 	f := v.fs
-	f.mu.Lock()
+	f.lock()
 	var err error
 	if v.stale() {
 		err = pe("removeall", name, errStale)
 	} else if parent, base, in, e := f.resolve(name, false, 0); e == nil && in != nil && parent != nil {
 		delete(parent.children, base)
 	}
-	f.mu.Unlock()
+	f.unlock()
 	return v.end(c, err)
 }
 
+//go:norace
 func isAncestor(a, b *Inode) bool { // is a an ancestor-or-self of b
 	if a == b {
 		return true
@@ -626,11 +724,13 @@ func isAncestor(a, b *Inode) bool { // is a an ancestor-or-self of b
 	return false
 }
 
+//go:norace
 func (v *View) Rename(oldpath, newpath string) error {
 	c, flt := v.begin(&Call{Op: "Rename", Path: oldpath, Path2: newpath})
 	return v.end(c, v.rename(oldpath, newpath, flt))
 }
 
+//go:norace
 func (v *View) rename(oldpath, newpath string, flt *Fault) error {
 	f := v.fs
 	le := func(e error) error { return &os.LinkError{Op: "rename", Old: oldpath, New: newpath, Err: e} }
@@ -639,8 +739,8 @@ func (v *View) rename(oldpath, newpath string, flt *Fault) error {
 			return le(e)
 		}
 	}
-	f.mu.Lock()
-	defer f.mu.Unlock()
+	f.lock()
+	defer f.unlock()
 	if v.stale() {
 		return le(errStale)
 	}
@@ -686,6 +786,7 @@ func (v *View) rename(oldpath, newpath string, flt *Fault) error {
 	return nil
 }
 
+//go:norace
 func (v *View) statCommon(op, name string, follow bool) (os.FileInfo, error) {
 	c, flt := v.begin(&Call{Op: op, Path: name})
 	f := v.fs
@@ -694,7 +795,7 @@ func (v *View) statCommon(op, name string, follow bool) (os.FileInfo, error) {
 			return nil, v.end(c, pe("stat", name, e))
 		}
 	}
-	f.mu.Lock()
+	f.lock()
 	var fi os.FileInfo
 	var err error
 	if v.stale() {
@@ -704,13 +805,16 @@ func (v *View) statCommon(op, name string, follow bool) (os.FileInfo, error) {
 	} else {
 		fi = in.info(path.Base(clean(name)))
 	}
-	f.mu.Unlock()
+	f.unlock()
 	return fi, v.end(c, err)
 }
 
+//go:norace
 func (v *View) Stat(name string) (os.FileInfo, error)  { return v.statCommon("Stat", name, true) }
+//go:norace
 func (v *View) Lstat(name string) (os.FileInfo, error) { return v.statCommon("Lstat", name, false) }
 
+//go:norace
 func (v *View) attrOp(c *Call, name string, follow bool, fn func(in *Inode)) error {
 	c, flt := v.begin(c)
 	f := v.fs
@@ -719,7 +823,7 @@ func (v *View) attrOp(c *Call, name string, follow bool, fn func(in *Inode)) err
 			return v.end(c, pe(strings.ToLower(c.Op), name, e))
 		}
 	}
-	f.mu.Lock()
+	f.lock()
 	var err error
 	if v.stale() {
 		err = pe(strings.ToLower(c.Op), name, errStale)
@@ -728,16 +832,18 @@ func (v *View) attrOp(c *Call, name string, follow bool, fn func(in *Inode)) err
 	} else {
 		fn(in)
 	}
-	f.mu.Unlock()
+	f.unlock()
 	return v.end(c, err)
 }
 
+//go:norace
 func (v *View) Chmod(name string, mode os.FileMode) error {
 	return v.attrOp(&Call{Op: "Chmod", Path: name, Perm: mode}, name, true, func(in *Inode) {
 		in.Perm = mode & (os.ModePerm | os.ModeSetuid | os.ModeSetgid | os.ModeSticky)
 	})
 }
 
+//go:norace
 func (v *View) Chtimes(name string, atime, mtime time.Time) error {
 	return v.attrOp(&Call{Op: "Chtimes", Path: name}, name, true, func(in *Inode) {
 		if !atime.IsZero() {
@@ -749,6 +855,7 @@ func (v *View) Chtimes(name string, atime, mtime time.Time) error {
 	})
 }
 
+//go:norace
 func (v *View) Chown(name string, uid, gid int) error {
 	return v.attrOp(&Call{Op: "Chown", Path: name, UID: uid, GID: gid}, name, true, func(in *Inode) {
 		if uid >= 0 {
@@ -760,6 +867,7 @@ func (v *View) Chown(name string, uid, gid int) error {
 	})
 }
 
+//go:norace
 func (v *View) Lchown(name string, uid, gid int) error {
 	return v.attrOp(&Call{Op: "Lchown", Path: name, UID: uid, GID: gid}, name, false, func(in *Inode) {
 		if uid >= 0 {
@@ -771,6 +879,7 @@ func (v *View) Lchown(name string, uid, gid int) error {
 	})
 }
 
+//go:norace
 func (v *View) Truncate(name string, size int64) error {
 	c, flt := v.begin(&Call{Op: "Truncate", Path: name, Size: size})
 	f := v.fs
@@ -779,7 +888,7 @@ func (v *View) Truncate(name string, size int64) error {
 			return v.end(c, pe("truncate", name, e))
 		}
 	}
-	f.mu.Lock()
+	f.lock()
 	var err error
 	if v.stale() {
 		err = pe("truncate", name, errStale)
@@ -794,10 +903,11 @@ func (v *View) Truncate(name string, size int64) error {
 		in.dirty = true
 		in.Mtime = time.Now()
 	}
-	f.mu.Unlock()
+	f.unlock()
 	return v.end(c, err)
 }
 
+//go:norace
 func (v *View) Symlink(oldname, newname string) error {
 	c, flt := v.begin(&Call{Op: "Symlink", Path: newname, Path2: oldname})
 	f := v.fs
@@ -807,7 +917,7 @@ func (v *View) Symlink(oldname, newname string) error {
 			return v.end(c, le(e))
 		}
 	}
-	f.mu.Lock()
+	f.lock()
 	var err error
 	if v.stale() {
 		err = le(errStale)
@@ -821,10 +931,11 @@ func (v *View) Symlink(oldname, newname string) error {
 		parent.children[base] = n
 		parent.Mtime = time.Now()
 	}
-	f.mu.Unlock()
+	f.unlock()
 	return v.end(c, err)
 }
 
+//go:norace
 func (v *View) Readlink(name string) (string, error) {
 	c, flt := v.begin(&Call{Op: "Readlink", Path: name})
 	f := v.fs
@@ -833,7 +944,7 @@ func (v *View) Readlink(name string) (string, error) {
 			return "", v.end(c, pe("readlink", name, e))
 		}
 	}
-	f.mu.Lock()
+	f.lock()
 	var tgt string
 	var err error
 	if v.stale() {
@@ -845,14 +956,15 @@ func (v *View) Readlink(name string) (string, error) {
 	} else {
 		tgt = in.Target
 	}
-	f.mu.Unlock()
+	f.unlock()
 	return tgt, v.end(c, err)
 }
 
+//go:norace
 func (v *View) ReadDir(name string) ([]fs.DirEntry, error) {
 	c, _ := v.begin(&Call{Op: "ReadDir", Path: name})
 	f := v.fs
-	f.mu.Lock()
+	f.lock()
 	var out []fs.DirEntry
 	var err error
 	if v.stale() {
@@ -866,10 +978,11 @@ func (v *View) ReadDir(name string) ([]fs.DirEntry, error) {
 			out = append(out, dirEntry{fi})
 		}
 	}
-	f.mu.Unlock()
+	f.unlock()
 	return out, v.end(c, err)
 }
 
+//go:norace
 func listDir(in *Inode) []os.FileInfo {
 	names := make([]string, 0, len(in.children))
 	for n := range in.children {
@@ -883,6 +996,7 @@ func listDir(in *Inode) []os.FileInfo {
 	return out
 }
 
+//go:norace
 func (v *View) ReadFile(name string) ([]byte, error) {
 	file, err := v.OpenFile(name, os.O_RDONLY, 0)
 	if err != nil {
@@ -892,9 +1006,13 @@ func (v *View) ReadFile(name string) ([]byte, error) {
 	return io.ReadAll(file)
 }
 
+//go:norace
 func (v *View) Sub(dir string) (fs.FS, error) { return nil, absfs.ErrNotImplemented }
+//go:norace
 func (v *View) Chdir(dir string) error         { v.cwd = clean(dir); return nil }
+//go:norace
 func (v *View) Getwd() (string, error)         { return v.cwd, nil }
+//go:norace
 func (v *View) TempDir() string                { return "/tmp" }
 
 var _ absfs.SymlinkFileSystem = (*View)(nil)
@@ -912,10 +1030,13 @@ type File struct {
 	dirPos int
 }
 
+//go:norace
 func (fl *File) Name() string { return fl.name }
 
+//go:norace
 func (fl *File) call(op string) *Call { return &Call{Op: "File." + op, Path: fl.name, Flag: fl.flag} }
 
+//go:norace
 func (fl *File) check(op string) error {
 	if fl.closed {
 		return pe(op, fl.name, os.ErrClosed)
@@ -926,14 +1047,17 @@ func (fl *File) check(op string) error {
 	return nil
 }
 
+//go:norace
 func (fl *File) Read(b []byte) (int, error) {
 	n, err := fl.readAt("Read", b, fl.pos)
 	fl.pos += int64(n)
 	return n, err
 }
 
+//go:norace
 func (fl *File) ReadAt(b []byte, off int64) (int, error) { return fl.readAt("ReadAt", b, off) }
 
+//go:norace
 func (fl *File) readAt(op string, b []byte, off int64) (int, error) {
 	c := fl.call(op)
 	c.Off, c.Len = off, len(b)
@@ -947,7 +1071,7 @@ func (fl *File) readAt(op string, b []byte, off int64) (int, error) {
 		}
 	}
 	if err == nil {
-		f.mu.Lock()
+		f.lock()
 		if e := fl.check("read"); e != nil {
 			err = e
 		} else if fl.in.Kind == KindDir {
@@ -967,28 +1091,32 @@ func (fl *File) readAt(op string, b []byte, off int64) (int, error) {
 				err = io.EOF
 			}
 		}
-		f.mu.Unlock()
+		f.unlock()
 	}
 	c.N = n
 	return n, fl.v.end(c, err)
 }
 
+//go:norace
 func (fl *File) Write(b []byte) (int, error) {
 	off := fl.pos
 	if fl.flag&os.O_APPEND != 0 {
-		fl.v.fs.mu.Lock()
+		fl.v.fs.lock()
 		off = fl.in.data.size
-		fl.v.fs.mu.Unlock()
+		fl.v.fs.unlock()
 	}
 	n, err := fl.writeAt("Write", b, off)
 	fl.pos = off + int64(n)
 	return n, err
 }
 
+//go:norace
 func (fl *File) WriteString(s string) (int, error) { return fl.Write([]byte(s)) }
 
+//go:norace
 func (fl *File) WriteAt(b []byte, off int64) (int, error) { return fl.writeAt("WriteAt", b, off) }
 
+//go:norace
 func (fl *File) writeAt(op string, b []byte, off int64) (int, error) {
 	c := fl.call(op)
 	c.Off, c.Len = off, len(b)
@@ -1002,7 +1130,7 @@ func (fl *File) writeAt(op string, b []byte, off int64) (int, error) {
 		}
 	}
 	if err == nil {
-		f.mu.Lock()
+		f.lock()
 		if e := fl.check("write"); e != nil {
 			err = e
 		} else if fl.in.Kind != KindFile {
@@ -1031,15 +1159,16 @@ func (fl *File) writeAt(op string, b []byte, off int64) (int, error) {
 				fl.in.dirty = false
 			}
 		}
-		f.mu.Unlock()
+		f.unlock()
 	}
 	c.N = n
 	return n, fl.v.end(c, err)
 }
 
+//go:norace
 func (fl *File) Seek(offset int64, whence int) (int64, error) {
-	fl.v.fs.mu.Lock()
-	defer fl.v.fs.mu.Unlock()
+	fl.v.fs.lock()
+	defer fl.v.fs.unlock()
 	var base int64
 	switch whence {
 	case io.SeekStart:
@@ -1057,15 +1186,16 @@ func (fl *File) Seek(offset int64, whence int) (int64, error) {
 	return fl.pos, nil
 }
 
+//go:norace
 func (fl *File) Close() error {
 	c, flt := fl.v.begin(fl.call("Close"))
 	var err error
-	fl.v.fs.mu.Lock()
+	fl.v.fs.lock()
 	if fl.closed {
 		err = pe("close", fl.name, os.ErrClosed)
 	}
 	fl.closed = true
-	fl.v.fs.mu.Unlock()
+	fl.v.fs.unlock()
 	if err == nil && flt != nil {
 		if e := faultErr(flt); e != nil {
 			simrt.Fault("fs.close_err")
@@ -1075,6 +1205,7 @@ func (fl *File) Close() error {
 	return fl.v.end(c, err)
 }
 
+//go:norace
 func (fl *File) Sync() error {
 	c, flt := fl.v.begin(fl.call("Sync"))
 	var err error
@@ -1085,18 +1216,19 @@ func (fl *File) Sync() error {
 		}
 	}
 	if err == nil {
-		fl.v.fs.mu.Lock()
+		fl.v.fs.lock()
 		if e := fl.check("sync"); e != nil {
 			err = e
 		} else if fl.in.Kind == KindFile {
 			fl.in.durable = fl.in.data.clone()
 			fl.in.dirty = false
 		}
-		fl.v.fs.mu.Unlock()
+		fl.v.fs.unlock()
 	}
 	return fl.v.end(c, err)
 }
 
+//go:norace
 func (fl *File) Stat() (os.FileInfo, error) {
 	c, flt := fl.v.begin(fl.call("Stat"))
 	var fi os.FileInfo
@@ -1107,17 +1239,18 @@ func (fl *File) Stat() (os.FileInfo, error) {
 		}
 	}
 	if err == nil {
-		fl.v.fs.mu.Lock()
+		fl.v.fs.lock()
 		if e := fl.check("stat"); e != nil {
 			err = e
 		} else {
 			fi = fl.in.info(path.Base(fl.name))
 		}
-		fl.v.fs.mu.Unlock()
+		fl.v.fs.unlock()
 	}
 	return fi, fl.v.end(c, err)
 }
 
+//go:norace
 func (fl *File) Readdir(count int) ([]os.FileInfo, error) {
 	c, flt := fl.v.begin(fl.call("Readdir"))
 	var out []os.FileInfo
@@ -1128,7 +1261,7 @@ func (fl *File) Readdir(count int) ([]os.FileInfo, error) {
 		}
 	}
 	if err == nil {
-		fl.v.fs.mu.Lock()
+		fl.v.fs.lock()
 		if e := fl.check("readdir"); e != nil {
 			err = e
 		} else if fl.in.Kind != KindDir {
@@ -1148,11 +1281,12 @@ func (fl *File) Readdir(count int) ([]os.FileInfo, error) {
 				err = io.EOF
 			}
 		}
-		fl.v.fs.mu.Unlock()
+		fl.v.fs.unlock()
 	}
 	return out, fl.v.end(c, err)
 }
 
+//go:norace
 func (fl *File) Readdirnames(n int) ([]string, error) {
 	fis, err := fl.Readdir(n)
 	names := make([]string, len(fis))
@@ -1162,6 +1296,7 @@ func (fl *File) Readdirnames(n int) ([]string, error) {
 	return names, err
 }
 
+//go:norace
 func (fl *File) ReadDir(n int) ([]fs.DirEntry, error) {
 	fis, err := fl.Readdir(n)
 	out := make([]fs.DirEntry, len(fis))
@@ -1171,6 +1306,7 @@ func (fl *File) ReadDir(n int) ([]fs.DirEntry, error) {
 	return out, err
 }
 
+//go:norace
 func (fl *File) Truncate(size int64) error {
 	c := fl.call("Truncate")
 	c.Size = size
@@ -1182,7 +1318,7 @@ func (fl *File) Truncate(size int64) error {
 		}
 	}
 	if err == nil {
-		fl.v.fs.mu.Lock()
+		fl.v.fs.lock()
 		if e := fl.check("truncate"); e != nil {
 			err = e
 		} else if fl.in.Kind != KindFile || size < 0 {
@@ -1192,7 +1328,7 @@ func (fl *File) Truncate(size int64) error {
 			fl.in.dirty = true
 			fl.in.Mtime = time.Now()
 		}
-		fl.v.fs.mu.Unlock()
+		fl.v.fs.unlock()
 	}
 	return fl.v.end(c, err)
 }
@@ -1204,9 +1340,11 @@ var _ absfs.File = (*File)(nil)
 // Crash discards volatile state. torn: an arbitrary subset of dirty pages of
 // each dirty file survives (chosen from rng); otherwise none of the unsynced
 // changes survive. All existing views become stale.
+//
+//go:norace
 func (f *FS) Crash(torn bool, rng *simrt.Rand) {
-	f.mu.Lock()
-	defer f.mu.Unlock()
+	f.hlock()
+	defer f.hunlock()
 	var walk func(in *Inode)
 	walk = func(in *Inode) {
 		if in.Kind == KindDir {
@@ -1257,19 +1395,23 @@ func (f *FS) Crash(torn bool, rng *simrt.Rand) {
 }
 
 // ArmCrash schedules a crash right after the n-th backend call from now completes.
+//
+//go:norace
 func (f *FS) ArmCrash(n int, torn bool, rng *simrt.Rand) {
-	f.mu.Lock()
+	f.hlock()
 	f.CrashAfter = f.completed + n
 	f.CrashTorn = torn
 	f.crashRng = rng
 	f.Crashed = false
-	f.mu.Unlock()
+	f.hunlock()
 }
 
 // Completed returns the number of completed backend calls.
+//
+//go:norace
 func (f *FS) Completed() int {
-	f.mu.Lock()
-	defer f.mu.Unlock()
+	f.hlock()
+	defer f.hunlock()
 	return f.completed
 }
 
@@ -1285,9 +1427,11 @@ type Node struct {
 }
 
 // Snapshot returns all objects sorted by path.
+//
+//go:norace
 func (f *FS) Snapshot() []Node {
-	f.mu.Lock()
-	defer f.mu.Unlock()
+	f.hlock()
+	defer f.hunlock()
 	var out []Node
 	var walk func(p string, in *Inode)
 	walk = func(p string, in *Inode) {
@@ -1308,9 +1452,11 @@ func (f *FS) Snapshot() []Node {
 }
 
 // Lookup returns the object at p without following a final symlink (nil if absent).
+//
+//go:norace
 func (f *FS) Lookup(p string) *Node {
-	f.mu.Lock()
-	defer f.mu.Unlock()
+	f.hlock()
+	defer f.hunlock()
 	in, err := f.lookup(p, false)
 	if err != nil {
 		return nil
@@ -1319,9 +1465,11 @@ func (f *FS) Lookup(p string) *Node {
 }
 
 // ReadAll returns the current (volatile) content of a regular file.
+//
+//go:norace
 func (f *FS) ReadAll(p string) ([]byte, bool) {
-	f.mu.Lock()
-	defer f.mu.Unlock()
+	f.hlock()
+	defer f.hunlock()
 	in, err := f.lookup(p, false)
 	if err != nil || in.Kind != KindFile {
 		return nil, false
@@ -1332,9 +1480,11 @@ func (f *FS) ReadAll(p string) ([]byte, bool) {
 }
 
 // ReadRange reads [off, off+n) of the current content (zeros in holes; short at EOF).
+//
+//go:norace
 func (f *FS) ReadRange(p string, off int64, n int) ([]byte, int64, bool) {
-	f.mu.Lock()
-	defer f.mu.Unlock()
+	f.hlock()
+	defer f.hunlock()
 	in, err := f.lookup(p, false)
 	if err != nil || in.Kind != KindFile {
 		return nil, 0, false
@@ -1345,9 +1495,11 @@ func (f *FS) ReadRange(p string, off int64, n int) ([]byte, int64, bool) {
 }
 
 // Populate helpers (durable immediately, not logged).
+//
+//go:norace
 func (f *FS) MustMkdir(p string, perm os.FileMode) {
-	f.mu.Lock()
-	defer f.mu.Unlock()
+	f.hlock()
+	defer f.hunlock()
 	parent, base, in, err := f.resolve(p, false, 0)
 	if err != nil || in != nil || parent == nil {
 		panic(fmt.Sprintf("simfs.MustMkdir %s: %v", p, err))
@@ -1355,9 +1507,10 @@ func (f *FS) MustMkdir(p string, perm os.FileMode) {
 	parent.children[base] = f.newInode(KindDir, perm)
 }
 
+//go:norace
 func (f *FS) MustWriteFile(p string, data []byte, perm os.FileMode) {
-	f.mu.Lock()
-	defer f.mu.Unlock()
+	f.hlock()
+	defer f.hunlock()
 	parent, base, in, err := f.resolve(p, false, 0)
 	if err != nil || parent == nil {
 		panic(fmt.Sprintf("simfs.MustWriteFile %s: %v", p, err))
@@ -1372,9 +1525,10 @@ func (f *FS) MustWriteFile(p string, data []byte, perm os.FileMode) {
 	in.dirty = false
 }
 
+//go:norace
 func (f *FS) MustSymlink(target, p string) {
-	f.mu.Lock()
-	defer f.mu.Unlock()
+	f.hlock()
+	defer f.hunlock()
 	parent, base, in, err := f.resolve(p, false, 0)
 	if err != nil || in != nil || parent == nil {
 		panic(fmt.Sprintf("simfs.MustSymlink %s: %v", p, err))
@@ -1385,31 +1539,38 @@ func (f *FS) MustSymlink(target, p string) {
 }
 
 // SetOwner sets uid/gid (harness side).
+//
+//go:norace
 func (f *FS) SetOwner(p string, uid, gid uint32, perm os.FileMode) {
-	f.mu.Lock()
-	defer f.mu.Unlock()
+	f.hlock()
+	defer f.hunlock()
 	if in, err := f.lookup(p, false); err == nil {
 		in.UID, in.GID, in.Perm = uid, gid, perm
 	}
 }
 
 // CallsSince returns the logged calls with Seq > seq.
+//
+//go:norace
 func (f *FS) CallsSince(seq int) []*Call {
-	f.mu.Lock()
-	defer f.mu.Unlock()
+	f.hlock()
+	defer f.hunlock()
 	var out []*Call
 	for _, c := range f.Calls {
 		if c.Seq > seq {
-			out = append(out, c)
+			cp := *c // a copy: the harness must not share memory with server tasks
+			out = append(out, &cp)
 		}
 	}
 	return out
 }
 
 // LastSeq returns the sequence number of the latest logged call.
+//
+//go:norace
 func (f *FS) LastSeq() int {
-	f.mu.Lock()
-	defer f.mu.Unlock()
+	f.hlock()
+	defer f.hunlock()
 	return f.nseq
 }
 
@@ -1420,9 +1581,11 @@ type Extent struct {
 }
 
 // Extents returns the size and the allocated pages of a regular file (sparse-safe).
+//
+//go:norace
 func (f *FS) Extents(p string) (int64, []Extent, bool) {
-	f.mu.Lock()
-	defer f.mu.Unlock()
+	f.hlock()
+	defer f.hunlock()
 	in, err := f.lookup(p, false)
 	if err != nil || in.Kind != KindFile {
 		return 0, nil, false
